@@ -14,7 +14,7 @@ EXPLANATION = (
     "abstract state (escape, prev_boundary/is_char, tag_str variant, emptiness of text/tags_tmp, input character class)."
 )
 THOROUGH_CONFIGS = [C.NO_TAG, C.MINIMAL]
-QUICK_CONFIGS = [C.NO_TAG]
+QUICK_CONFIGS = [C.NO_TAG, C.MINIMAL]
 NOT_DECIDED = [
     "bounds of str_to_char_pos[pos] stores and the `n_tags - ts.len()` subtraction (numeric)",
     "that accessors/writers/iterators work on the result beyond the shape facts R05.1-R05.3",
